@@ -104,6 +104,8 @@ type Env struct {
 	funcs   map[*am.Func]int // identity -> scenario index
 	NConvs  int
 	nextGen int
+	// ViaList: build the next function through NewFuncList instead of NewFunc
+	ViaList bool
 	// PhaseOf, when set, tells which phase (goroutine of a concurrent run) executes the calling body
 	PhaseOf func() int
 }
@@ -312,6 +314,14 @@ func (env *Env) buildReflect(idx int, fs FuncSpec, opts []am.Arg) (*am.Func, err
 		env.emit(ex)
 		return res
 	})
+	if env.ViaList {
+		// NewFuncList "is the same as calling NewFunc for each f"
+		fl, err := am.NewFuncList([]interface{}{fn.Interface()}, opts...)
+		if err != nil {
+			return nil, err
+		}
+		return fl[0], nil
+	}
 	return am.NewFunc(fn.Interface(), opts...)
 }
 
